@@ -5,7 +5,7 @@ SPEC = {
     "level": "exploration",
     "units": [
         {"name": "encode", "pkg": EL, "kind": "rapid", "run": "^TestVerifC07Encode$",
-         "quick": {"checks": 400, "shards": 6, "timeout": 300},
+         "quick": {"checks": 600, "shards": 8, "timeout": 300},
          "thorough": {"checks": 6000, "shards": 16, "timeout": 3000}},
         {"name": "decode", "pkg": EL, "kind": "rapid", "run": "^TestVerifC07Decode$",
          "quick": {"checks": 3000, "shards": 1, "timeout": 300},
